@@ -11,8 +11,8 @@ TRUST = ("Trusted: SMT solvers (z3 5.1.0 primary; z3 4.8.12 / cvc5 fall back; th
 
 CLAIMS = {
     "C01": dict(
-        text="The vertical index is proved to be floor(alt*2^v/2^25) under IEEE semantics for every zoom (both float operations are power-of-two scalings with explicit no-underflow obligations); the horizontal kernel is proved equal to the property's x and y formulas over ideal reals (x with the lon=180 fold, y through the trusted identity log(tan p+1/cos p)=asinh(tan p)), with 0<=x,y<=2^h; the list functions are proved to reject bad zooms and nil points and otherwise to return, in order and with the same length, the horizontal tile joined with the vertical tile of each point (spatial-ID form: same components in z/f/x/y order).",
-        note=TRUST + "Rounding of the x and y computations is NOT decided: three witness findings (KNOWN-FINDING lines) record that x can be one too large within one rounding step below a tile edge, can equal 2^h just below lon=180, and that a negative subnormal altitude gets index 0. The Mercator bound |asinh(tan lat)| <= pi for |lat| <= 85.0511287798 is assumed.",
+        text="The vertical index is proved to be floor(alt*2^v/2^25) under IEEE semantics for every zoom (both float operations are power-of-two scalings with explicit no-underflow obligations); the horizontal kernel is proved equal to the property's x and y formulas over ideal reals (x with the lon=180 fold, y through the trusted identity log(tan p+1/cos p)=asinh(tan p)); 0 <= x < 2^h is proved under IEEE semantics for every longitude of the domain; the list functions are proved to reject bad zooms and nil points and otherwise to return, in order and with the same length, the horizontal tile joined with the vertical tile of each point (spatial-ID form: same components in z/f/x/y order).",
+        note=TRUST + "Rounding of the x and y computations is NOT decided: two witness findings (KNOWN-FINDING lines) record that x can be one too large within one rounding step below a tile edge and that a negative subnormal altitude gets index 0 (a third, x = 2^h just below lon = 180, was repaired). The Mercator bound |asinh(tan lat)| <= pi for |lat| <= 85.0511287798 is assumed.",
         tech="deductive verification: WP VCs over go/ssa, real-arithmetic float model (exact power-of-two scalings, ideal reals for transcendental parts), pure-function abstraction, SMT", ref="4 C01"),
     "C15": dict(
         text="Every exported error-returning function of shape, integrate, operated, detector, transform and object except the two projection wrappers (third-party wgs84 closure, see C18) is under contract: for every string, integer and float argument the function does not panic (S obligations on every index, slice, nil dereference, division and conversion of the function and of the repository callees it is verified against), and the documented refusals are postconditions: zoom outside 0..35 (1..31 for quadkeys), malformed IDs (wrong arity or non-integer fields, exact iff where the function parses all fields), nil points, unknown options, negative layer counts and radii, longitude/latitude limits with the 1e-10 latitude cut, negative tile zooms; the shift helpers return the empty ID.",
